@@ -861,15 +861,16 @@ def uIsIso (u : List Rat) : Bool :=
 def xcfgLayout (d : XcfgS) : XLayout :=
   let los := [0, 1, 2].map (fun k => minOf (coords k d.atoms))
   let his := [0, 1, 2].map (fun k => maxOf (coords k d.atoms))
-  let ranges := (his.zip los).map (fun p => p.1 - p.2)
-  let maxRange := maxOf ranges + (if d.unitCell then 2 else 0)
-  let a0 : Nat := (ratCeil (maxRange + 1 / 10000000000000)).toNat
+  let ranges := (his.zip los).map (fun p => fl (p.1 - p.2))
+  let maxRange := if d.unitCell then fl (maxOf ranges + 2) else maxOf ranges
+  -- `numpy.ceil(max_range_xyz + 1.0e-13)` with the exact value of the double 1.0e-13
+  let a0 : Nat := (ratCeil (fl (maxRange + mkRat 3961408125713217 39614081257132168796771975168))).toNat
   let rows := [d.base.take 3, (d.base.drop 3).take 3, (d.base.drop 6).take 3]
   let h2 := maxOf (rows.map (fun r => (r.map (fun x => x * x)).foldl (· + ·) 0))
   let a : Nat := if h2 * ((a0 * a0 : Nat) : Rat) < 49 / 4 then ceilRatio h2 else a0
   let aq : Rat := (a : Rat)
   let sh := (his.zip los).map (fun p =>
-    if p.2 / aq < 0 ∨ 1 ≤ p.1 / aq ∨ (p.2 = p.1 ∧ p.2 = 0) then (1 / 2 : Rat) - (p.1 + p.2) / 2 / aq else 0)
+    if fl (p.2 / aq) < 0 ∨ 1 ≤ fl (p.1 / aq) ∨ (p.2 = p.1 ∧ p.2 = 0) then fl ((1 / 2 : Rat) - fl (fl (fl (p.1 + p.2) / 2) / aq)) else 0)
   let noVel := match d.atoms with | a :: _ => a.v.isNone | [] => true
   let stored := d.storedAux.filter (fun n => !isDerivedAux n)
   let anyOcc := d.atoms.any (fun a => a.occ != 1)
@@ -888,9 +889,13 @@ def xcfgLayout (d : XcfgS) : XLayout :=
 
 def g8 (x : Rat) : Str := fmtG 8 x
 
-def xcfgEntry (L : XLayout) (a : XAtom) : Str :=
+/-- `a.xyz / p_A + p_dxyz` in double arithmetic -/
+def xcfgPos (L : XLayout) (a : XAtom) : List Rat :=
   let aq : Rat := (L.a : Rat)
-  let pos := [a.xyz.x / aq + L.shift.x, a.xyz.y / aq + L.shift.y, a.xyz.z / aq + L.shift.z]
+  [fl (fl (a.xyz.x / aq) + L.shift.x), fl (fl (a.xyz.y / aq) + L.shift.y), fl (fl (a.xyz.z / aq) + L.shift.z)]
+
+def xcfgEntry (L : XLayout) (a : XAtom) : Str :=
+  let pos := xcfgPos L a
   let vel := if L.noVel then [] else match a.v with | some v => [v.x, v.y, v.z] | none => []
   let us : List Rat :=
     if L.uMode = 0 then [] else if L.uMode = 1 then [a.u.getD 0 0]
@@ -1031,7 +1036,10 @@ def parseXcfg (lines : List Str) : PRes XcfgRead :=
 /-- element symbols of XCFG: one token that is not itself a number (it would be taken for a mass) -/
 def rangeXcfg (d : XcfgS) : Bool :=
   !d.atoms.isEmpty && d.base.length == 9 && d.atoms.all (fun a => elemOk a.el && !isFloatTok a.el && a.u.length == 9) &&
-  d.storedAux.all elemOk
+  d.storedAux.all elemOk &&
+  -- reduced coordinates stay below 1 after printing with 8 significant digits (a coordinate that
+  -- prints as `1` puts the atom on the box face; the next write recentres the whole structure)
+  d.atoms.all (fun a => (xcfgPos (xcfgLayout d) a).all (fun p => decide (roundSig 8 p < 1)))
 
 /-- what the reader makes of the written text, computed from the document -/
 def quantXcfg (d : XcfgS) : XcfgRead :=
@@ -1040,7 +1048,7 @@ def quantXcfg (d : XcfgS) : XcfgRead :=
   let names := L.aux
   ⟨d.atoms.length, aq, d.base.map (roundSig 8),
    d.atoms.map (fun a =>
-     let pos := [a.xyz.x / (L.a : Rat) + L.shift.x, a.xyz.y / (L.a : Rat) + L.shift.y, a.xyz.z / (L.a : Rat) + L.shift.z]
+     let pos := xcfgPos L a
      let vel := if L.noVel then none else a.v.map (fun v => v.map (roundSig 8))
      let us : List Rat :=
        if L.uMode = 0 then [] else if L.uMode = 1 then [a.u.getD 0 0]
@@ -1053,6 +1061,172 @@ def quantXcfg (d : XcfgS) : XcfgRead :=
 the proof is not done) -/
 def roundtrip_xcfg_statement : Prop :=
   ∀ d : XcfgS, rangeXcfg d = true → parseXcfg (ofText (toText (writeXcfg d))) = .ok (quantXcfg d)
+
+
+/-! ## CIF (`p_cif.py`): the text `P_cif.toLines` produces, and a reader of exactly that layout
+
+The real reader goes through PyCifRW (an external tokeniser/grammar, not modelled).  `parseCif`
+recognises the layout the writer emits — single-line `_tag value` items and the two `loop_`s with
+one row per line — and then applies diffpy's glue (`leading_float`, element normalisation, ADP
+type, anisotropic loop by label).  The space group of a written file is always P1, whose expansion
+only folds the positions into `[0, 1)`; that folding is applied by the harness when comparing. -/
+
+structure CifAtom where
+  el : Str
+  xyz : V3
+  uiso : Rat          -- `a.Uisoequiv`
+  occ : Rat
+  u : List Rat        -- `numpy.ravel(a.U)`
+deriving DecidableEq
+
+structure CifS where
+  title : Str
+  cell : Cell6
+  atoms : List CifAtom
+deriving DecidableEq
+
+def tagLine (tag : String) (value : Str) : Str := padRight 31 tag.toList ++ ' ' :: value
+
+/-- site labels `"%s%i" % (element, running count of that element)` -/
+def cifLabels : List Str → List Str → List Str
+  | _, [] => []
+  | seen, e :: es => (e ++ natDigits ((seen.filter (· == e)).length + 1)) :: cifLabels (e :: seen) es
+
+def splitOnNL (s : Str) : List Str := splitLines s
+
+def cifAtomLine (label : Str) (a : CifAtom) : Str :=
+  sp 2 ++ ssv [padRight 5 label, padRight 3 a.el, fmtF 11 6 a.xyz.x, fmtF 11 6 a.xyz.y, fmtF 11 6 a.xyz.z,
+    fmtF 11 6 a.uiso, padRight 5 (if uIsIso a.u then "Uiso".toList else "Uani".toList), fmtF 0 4 a.occ]
+
+def cifAnisoLine (label : Str) (a : CifAtom) : Str :=
+  sp 2 ++ ssv (padRight 5 label :: [0, 4, 8, 1, 2, 5].map (fun k => fmtF 9 6 (a.u.getD k 0)))
+
+/-- `toLines`; the creation date is printed as `DATE` (a wildcard in the comparison) -/
+def writeCif (d : CifS) : List Str :=
+  let labels := cifLabels [] (d.atoms.map (·.el))
+  let la := labels.zip d.atoms
+  let ani := la.filter (fun p => !uIsIso p.2.u)
+  (if (strip d.title).isEmpty then [] else (splitOnNL d.title).map (fun l => '#' :: ' ' :: strip l) ++ [[]]) ++
+  ["data_3D".toList, tagLine "_audit_creation_date" "DATE".toList, tagLine "_audit_creation_method" "P_cif.py".toList, [],
+   tagLine "_symmetry_space_group_name_H-M" "'P1'".toList, tagLine "_symmetry_Int_Tables_number" "1".toList,
+   tagLine "_symmetry_cell_setting" "triclinic".toList, [],
+   tagLine "_cell_length_a" (fmtG 6 d.cell.a), tagLine "_cell_length_b" (fmtG 6 d.cell.b),
+   tagLine "_cell_length_c" (fmtG 6 d.cell.c), tagLine "_cell_angle_alpha" (fmtG 6 d.cell.al),
+   tagLine "_cell_angle_beta" (fmtG 6 d.cell.be), tagLine "_cell_angle_gamma" (fmtG 6 d.cell.ga), [],
+   "loop_".toList, "  _atom_site_label".toList, "  _atom_site_type_symbol".toList, "  _atom_site_fract_x".toList,
+   "  _atom_site_fract_y".toList, "  _atom_site_fract_z".toList, "  _atom_site_U_iso_or_equiv".toList,
+   "  _atom_site_adp_type".toList, "  _atom_site_occupancy".toList] ++
+  la.map (fun p => cifAtomLine p.1 p.2) ++
+  (if ani.isEmpty then [] else
+    ["loop_".toList, "  _atom_site_aniso_label".toList, "  _atom_site_aniso_U_11".toList, "  _atom_site_aniso_U_22".toList,
+     "  _atom_site_aniso_U_33".toList, "  _atom_site_aniso_U_12".toList, "  _atom_site_aniso_U_13".toList,
+     "  _atom_site_aniso_U_23".toList] ++ ani.map (fun p => cifAnisoLine p.1 p.2))
+
+structure CifRAtom where
+  label : Str
+  el : Str
+  xyz : V3
+  uiso : Rat
+  aniso : Bool
+  occ : Rat
+  u : Option (List Rat)     -- U11 U22 U33 U12 U13 U23 of the anisotropic loop
+deriving DecidableEq
+
+structure CifRead where
+  cell : Cell6
+  atoms : List CifRAtom
+deriving DecidableEq
+
+def isTagLine (l : Str) : Bool := (lstrip l).head? == some '_'
+
+/-- rows of a loop: the lines up to the next blank line, `loop_`, tag or comment -/
+def loopRows : List Str → List (List Str)
+  | [] => []
+  | l :: rest =>
+    let w := splitWs l
+    match w with
+    | [] => []
+    | w0 :: _ => if w0 == "loop_".toList || w0.head? == some '_' || w0.head? == some '#' then [] else w :: loopRows rest
+
+/-- all loops of the text: (tags, rows) -/
+def cifLoops : Nat → List Str → List (List Str × List (List Str))
+  | 0, _ => []
+  | _, [] => []
+  | fuel + 1, l :: rest =>
+    if splitWs l == ["loop_".toList] then
+      let tagLines := rest.takeWhile isTagLine
+      let body := rest.dropWhile isTagLine
+      (tagLines.map strip, loopRows body) :: cifLoops fuel body
+    else cifLoops fuel rest
+
+def cifItem (lines : List Str) (tag : String) : Option Str :=
+  (lines.findSome? (fun l => match splitWs l with
+    | [t, v] => if t == tag.toList then some v else none
+    | _ => none))
+
+def colOf (tags : List Str) (tag : String) (row : List Str) : Option Str :=
+  match tags.idxOf? tag.toList with
+  | some i => row[i]?
+  | none => none
+
+def parseCif (lines : List Str) : PRes CifRead :=
+  let item := cifItem lines
+  match (item "_cell_length_a").bind parseDec, (item "_cell_length_b").bind parseDec, (item "_cell_length_c").bind parseDec,
+        (item "_cell_angle_alpha").bind parseDec, (item "_cell_angle_beta").bind parseDec, (item "_cell_angle_gamma").bind parseDec with
+  | some a, some b, some c, some al, some be, some ga =>
+    let loops := cifLoops lines.length lines
+    match loops.find? (fun p => p.1.contains "_atom_site_label".toList) with
+    | none => .error .sfe
+    | some (tags, rows) =>
+      let aniso := loops.find? (fun p => p.1.contains "_atom_site_aniso_label".toList)
+      let atoms := rows.mapM (fun row =>
+        if row.length ≠ tags.length then none else
+        match colOf tags "_atom_site_label" row, colOf tags "_atom_site_type_symbol" row,
+              (colOf tags "_atom_site_fract_x" row).bind parseDec, (colOf tags "_atom_site_fract_y" row).bind parseDec,
+              (colOf tags "_atom_site_fract_z" row).bind parseDec, (colOf tags "_atom_site_U_iso_or_equiv" row).bind parseDec,
+              colOf tags "_atom_site_adp_type" row, (colOf tags "_atom_site_occupancy" row).bind parseDec with
+        | some lb, some ty, some x, some y, some z, some ui, some adp, some oc =>
+          let flag := !(adp == "Uiso".toList || adp == "Biso".toList)
+          let urow := match aniso with
+            | none => none
+            | some (atags, arows) => (arows.find? (fun r => colOf atags "_atom_site_aniso_label" r == some lb)).bind (fun r =>
+                ["_atom_site_aniso_U_11", "_atom_site_aniso_U_22", "_atom_site_aniso_U_33", "_atom_site_aniso_U_12",
+                 "_atom_site_aniso_U_13", "_atom_site_aniso_U_23"].mapM (fun t => (colOf atags t r).bind parseDec))
+          some (⟨lb, capitalize ty, ⟨x, y, z⟩, ui, flag || urow.isSome, oc, urow⟩ : CifRAtom)
+        | _, _, _, _, _, _, _, _ => none)
+      match atoms with
+      | some as => .ok ⟨⟨a, b, c, al, be, ga⟩, as⟩
+      | none => .error .sfe
+  | _, _, _, _, _, _ => .error .sfe
+
+/-- CIF element symbols as the reader's pattern `(\d+-)?([a-zA-Z]+)(\d[+-])?` keeps them: letters,
+optionally followed by one digit and a sign -/
+def cifElemOk (e : Str) : Bool :=
+  let letters := e.takeWhile (fun c => isUpperA c || isLowerA c)
+  let rest := e.dropWhile (fun c => isUpperA c || isLowerA c)
+  !letters.isEmpty && (rest.isEmpty || (match rest with | [dg, sg] => isDigit dg && (sg == '+' || sg == '-') | _ => false))
+
+def rangeCif (d : CifS) : Bool := d.atoms.all (fun a => cifElemOk a.el && a.u.length == 9)
+
+/-- CONFIRMED DEFECT carve-out (harness key `cif:empty-structure`): for a structure without atoms
+the writer emits the `_atom_site` loop header without rows, which is not valid CIF; the reader
+rejects it. -/
+def defectCif (d : CifS) : Bool := d.atoms.isEmpty
+
+def reprCif (d : CifS) : Bool := rangeCif d && !defectCif d
+
+def quantCif (d : CifS) : CifRead :=
+  let labels := cifLabels [] (d.atoms.map (·.el))
+  ⟨d.cell.map (roundSig 6), (labels.zip d.atoms).map (fun p =>
+    let a := p.2
+    let ani := !uIsIso a.u
+    ⟨p.1, capitalize a.el, a.xyz.map (roundTo 6), roundTo 6 a.uiso, ani, roundTo 4 a.occ,
+     if ani then some ([0, 4, 8, 1, 2, 5].map (fun k => roundTo 6 (a.u.getD k 0))) else none⟩)⟩
+
+/-- the full-strength statement for CIF on the writer's own layout (kept visible; checked on
+every generated case by the correspondence, not proved) -/
+def roundtrip_cif_statement : Prop :=
+  ∀ d : CifS, reprCif d = true → parseCif (ofText (toText (writeCif d))) = .ok (quantCif d)
 
 /-! ## wire format -/
 
@@ -1303,6 +1477,39 @@ def xcfgHandle (ws : List String) : Option String :=
     else none
   | [] => none
 
+def rdCif : Rd CifS := do
+  let title ← rdStr
+  let cell ← rdCell
+  let n ← rdNat
+  let atoms ← rdN (do
+    let e ← rdStr; let p ← rdV3; let ui ← rdRat; let o ← rdRat; let u ← rdN rdRat 9
+    pure (⟨e, p, ui, o, u⟩ : CifAtom)) n
+  pure ⟨title, cell, atoms⟩
+
+def showCifRead (d : CifRead) : String :=
+  s!"ok {shCell d.cell} {d.atoms.length}" ++
+  String.join (d.atoms.map (fun a =>
+    s!" {encodeStr a.label} {encodeStr a.el} {shV3 a.xyz} {showRat a.uiso} {a.aniso} {showRat a.occ} " ++
+    shOpt (fun u => " ".intercalate (u.map showRat)) a.u))
+
+def cifHandle (ws : List String) : Option String :=
+  match ws with
+  | "fmt.cif.parse" :: rest =>
+    match rest.mapM decodeStr with
+    | some ls => some (showRes showCifRead (parseCif ls))
+    | none => some "bad-op"
+  | cmd :: rest =>
+    if cmd == "fmt.cif.write" || cmd == "fmt.cif.quant" || cmd == "fmt.cif.repr" || cmd == "fmt.cif.trip" then
+      match rdAll rdCif rest with
+      | none => some "bad-op"
+      | some d =>
+        if cmd == "fmt.cif.write" then some (encodeLines (writeCif d))
+        else if cmd == "fmt.cif.quant" then some (showCifRead (quantCif d))
+        else if cmd == "fmt.cif.repr" then some s!"repr={reprCif d} range={rangeCif d}"
+        else some (showRes showCifRead (parseCif (ofText (toText (writeCif d)))))
+    else none
+  | [] => none
+
 def discusHandle := formatHandle "discus" rdDiscus showDiscus writeDiscus quantDiscus reprDiscus rangeDiscus parseDiscus
 def pdffitHandle := formatHandle "pdffit" rdPdffit showPdffit writePdffit quantPdffit reprPdffit rangePdffit parsePdffit
 
@@ -1311,5 +1518,5 @@ end DS.Formats
 namespace DS
 /-- driver handler of C04: the text layer (`fmt.f`, `fmt.g`, …) and the per-format models -/
 def fmtHandle (ws : List String) : Option String :=
-  [DS.Dec.decHandle, DS.Formats.xyzHandle, DS.Formats.discusHandle, DS.Formats.pdffitHandle, DS.Formats.pdbHandle, DS.Formats.xcfgHandle].findSome? (fun h => h ws)
+  [DS.Dec.decHandle, DS.Formats.xyzHandle, DS.Formats.discusHandle, DS.Formats.pdffitHandle, DS.Formats.pdbHandle, DS.Formats.xcfgHandle, DS.Formats.cifHandle].findSome? (fun h => h ws)
 end DS
